@@ -136,6 +136,9 @@ def shape_stacks(rank):
     st.append(("u4u2", ["uniform_shape(4)", "uniform_shape(2)"], {}))
     st.append(("u3u2", ["uniform_shape(3)", "uniform_shape(2)"], {}))
     st.append(("u4u2u1", ["uniform_shape(4)", "uniform_shape(2)", "uniform_shape(1)"], {}))
+    st.append(("u4u4", ["uniform_shape(4)", "uniform_shape(4)"], {}))
+    st.append(("n2n2", ["nway_shape(2)", "nway_shape(2)"], {}))
+    st.append(("u2u2u2", ["uniform_shape(2)", "uniform_shape(2)", "uniform_shape(2)"], {}))
     for n in (1, 2, 3):
         st.append(("n%d" % n, ["nway_shape(%d)" % n], {}))
     st.append(("n2u2", ["nway_shape(2)", "uniform_shape(2)"], {}))
@@ -449,6 +452,18 @@ def f_occ(tier="quick", seed=0):
          ["K1", "MK0", "N1", "N0"], {"K": 4, "M": 2, "N": 3})
     core("sigma+occ+lookup-occ", gd, ge, {"K": ["uniform_shape(2)"], "(M, K0)": ["flatten()"], "MK0": ["uniform_occupancy(A.2)"],
                                           "N": ["uniform_occupancy(B.2)"]}, ["K1", "MK01", "N1", "MK00", "N0"], {"K": 4, "M": 2, "N": 3})
+    specs.append({"name": "occ/core/dynflat3", "decl": {"T": ["I", "J", "K"], "B": ["I", "J", "K"], "Z": []},
+                  "exprs": ["Z[] = T[i, j, k] * B[i, j, k]"],
+                  "mapping": {"partitioning": {"Z": {"I": ["uniform_occupancy(T.2)"], "J": ["uniform_occupancy(T.2)"],
+                                                     "K": ["uniform_occupancy(T.2)"], "(I0, J0, K0)": ["flatten()"]}},
+                              "loop-order": {"Z": ["I1", "K1", "J1", "I0J0K0"]}},
+                  "extents": {"I": 2, "J": 2, "K": 2}, "sizes": {}, "tags": {"family": "occ", "template": "core", "core": True}})
+    specs.append({"name": "occ/core/dynflat3-ijk", "decl": {"T": ["I", "J", "K"], "B": ["I", "J", "K"], "Z": []},
+                  "exprs": ["Z[] = T[i, j, k] * B[i, j, k]"],
+                  "mapping": {"partitioning": {"Z": {"I": ["uniform_occupancy(T.2)"], "J": ["uniform_occupancy(T.2)"],
+                                                     "K": ["uniform_occupancy(T.2)"], "(I0, J0, K0)": ["flatten()"]}},
+                              "loop-order": {"Z": ["I1", "J1", "K1", "I0J0K0"]}},
+                  "extents": {"I": 2, "J": 2, "K": 2}, "sizes": {}, "tags": {"family": "occ", "template": "core", "core": True}})
     core("flat-first-then-occ", {"A": ["K", "M", "N"], "B": ["K", "M", "N"], "Z": ["N"]}, ["Z[n] = A[k, m, n] * B[k, m, n]"],
          {"(K, M)": ["flatten()"], "KM": ["uniform_occupancy(A.3)"]}, ["KM1", "KM0", "N"], {"K": 2, "M": 2, "N": 2})
     # accelerator mappings with architecture stripped, sizes scaled to the extents
@@ -469,6 +484,7 @@ AFFINE = [
     ("dilate", {"F": ["S"], "I": ["W"], "O": ["Q"]}, "O[q] = I[q + 2*s] * F[s]", (1, 2)),
     ("stride3", {"F": ["S"], "I": ["W"], "O": ["Q"]}, "O[q] = I[3*q + s] * F[s]", (3, 1)),
     ("sd22", {"F": ["S"], "I": ["W"], "O": ["Q"]}, "O[q] = I[2*q + 2*s] * F[s]", (2, 2)),
+    ("sd24", {"F": ["S"], "I": ["W"], "O": ["Q"]}, "O[q] = I[2*q + 4*s] * F[s]", (2, 4)),
 ]
 
 
@@ -480,8 +496,12 @@ def f_affine(tier="quick", seed=0):
     for name, decl, expr, (cq, cs) in AFFINE:
         if tier == "quick" and name in ("stride3",):
             continue
-        for Q in Qs:
-            for S in Ss:
+        if name == "sd24" and tier == "quick":
+            Qs_, Ss_ = (3,), (2,)
+        else:
+            Qs_, Ss_ = Qs, Ss
+        for Q in Qs_:
+            for S in Ss_:
                 W = cq * (Q - 1) + cs * (S - 1) + 1
                 ext = {"Q": Q, "S": S, "W": W}
                 tags = {"family": "affine", "template": name, "follow": False}
@@ -502,12 +522,53 @@ def f_affine(tier="quick", seed=0):
                         else:
                             los = (["Q2", "Q1", "S", "Q0"], ["Q2", "Q1", "W0", "Q0"], ["Q2", "Q1", "W0", "S"],
                                    ["Q2", "S", "Q1", "Q0"], ["Q2", "Q1", "Q0", "S"])
-                        t2 = dict(tags, follow=True, aligned=(Q % sz == 0), psize=sz, levels=lv)
+                        t2 = dict(tags, follow=True, aligned=(Q % sz == 0), psize=sz, levels=lv,
+                                  outer_parts=("multi" if lv == 2 and Q > 2 * sz else "single"))
                         for lo in los:
                             specs.append({"name": "affine/%s/Q%dS%d/%s/lo=%s" % (name, Q, S, lab, ",".join(lo)),
                                           "decl": decl, "exprs": [expr],
                                           "mapping": {"partitioning": part, "loop-order": {"O": lo}},
                                           "extents": ext, "tags": t2})
+    # two-level split whose outer tile covers the whole extent (one outer partition: the interval logic is right there)
+    for name, decl, expr, (cq, cs) in AFFINE[:3]:
+        for Q, S in (((4, 2),) if tier == "quick" else ((4, 2), (5, 2), (6, 3), (4, 3))):
+            W = cq * (Q - 1) + cs * (S - 1) + 1
+            for lo in (["Q2", "Q1", "S", "Q0"], ["Q2", "Q1", "W0", "Q0"], ["Q2", "S", "Q1", "Q0"]):
+                specs.append({"name": "affine/%s/Q%dS%d/u8u2/lo=%s" % (name, Q, S, ",".join(lo)), "decl": decl, "exprs": [expr],
+                              "mapping": {"partitioning": {"O": {"Q": ["uniform_shape(8)", "uniform_shape(2)"], "W": ["follow(Q)"]}},
+                                          "loop-order": {"O": lo}},
+                              "extents": {"Q": Q, "S": S, "W": W},
+                              "tags": {"family": "affine", "template": name, "follow": True, "levels": 2, "outer_parts": "single",
+                                       "aligned": Q % 2 == 0, "psize": 2}})
+    # two followers of the partitioned output rank with different accesses; two operands projected onto the output rank
+    d2f = {"I": ["W"], "K": ["V"], "F": ["S"], "O": ["Q"]}
+    for Q, S in (((4, 2),) if tier == "quick" else ((4, 2), (4, 3), (6, 2))):
+        ext = {"Q": Q, "S": S, "W": Q + S - 1, "V": Q + 2 * (S - 1)}
+        for lo in (["Q", "S"], ["S", "Q"]):
+            specs.append({"name": "affine/two-followers/Q%dS%d/lo=%s" % (Q, S, ",".join(lo)), "decl": d2f,
+                          "exprs": ["O[q] = I[q + s] * K[q + 2*s] * F[s]"], "mapping": {"loop-order": {"O": lo}}, "extents": ext,
+                          "tags": {"family": "affine", "template": "two-followers", "follow": False}})
+        for sz in ((2,) if tier == "quick" else (2, 4)):
+            for lo in (["Q1", "S", "Q0"], ["Q1", "W0", "Q0"]):
+                specs.append({"name": "affine/two-followers/Q%dS%d/u%d/lo=%s" % (Q, S, sz, ",".join(lo)), "decl": d2f,
+                              "exprs": ["O[q] = I[q + s] * K[q + 2*s] * F[s]"],
+                              "mapping": {"partitioning": {"O": {"Q": ["uniform_shape(%d)" % sz], "W": ["follow(Q)"], "V": ["follow(Q)"]}},
+                                          "loop-order": {"O": lo}},
+                              "extents": ext, "tags": {"family": "affine", "template": "two-followers", "follow": True, "levels": 1,
+                                                       "aligned": Q % sz == 0, "psize": sz, "outer_parts": "single"}})
+    dsh = {"I": ["W"], "J": ["W"], "F": ["S"], "O": ["Q"]}
+    for Q, S in (((4, 3),) if tier == "quick" else ((4, 3), (3, 2), (5, 3))):
+        ext = {"Q": Q, "S": S, "W": Q + S - 1}
+        for lo in (["S", "Q"], ["Q", "S"], ["W", "S"], ["W", "Q"]):
+            specs.append({"name": "affine/shared-access/Q%dS%d/lo=%s" % (Q, S, ",".join(lo)), "decl": dsh,
+                          "exprs": ["O[q] = I[q + s] * J[q + s] * F[s]"], "mapping": {"loop-order": {"O": lo}}, "extents": ext,
+                          "tags": {"family": "affine", "template": "shared-access", "follow": False}})
+        for lo in (["Q1", "S", "Q0"], ["Q1", "W0", "Q0"]):
+            specs.append({"name": "affine/shared-access/Q%dS%d/u2/lo=%s" % (Q, S, ",".join(lo)), "decl": dsh,
+                          "exprs": ["O[q] = I[q + s] * J[q + s] * F[s]"],
+                          "mapping": {"partitioning": {"O": {"Q": ["uniform_shape(2)"], "W": ["follow(Q)"]}}, "loop-order": {"O": lo}},
+                          "extents": ext, "tags": {"family": "affine", "template": "shared-access", "follow": True, "levels": 1,
+                                                   "aligned": Q % 2 == 0, "psize": 2, "outer_parts": "single"}})
     # subsampling and a second operand indexed by the output rank
     for M in ((3,) if tier == "quick" else (2, 3, 4)):
         ext = {"M": M, "K": 2 * (M - 1) + 1}
@@ -649,6 +710,22 @@ def f_cascade(tier="quick", seed=0):
     d7 = {"I": ["W"], "F": ["S"], "G": ["S"], "T": ["Q"], "Z": ["Q"]}
     add("conv-conv", {"I": ["W"], "F": ["S"], "G": ["S"], "T": ["V"], "Z": ["Q"]},
         ["T[v] = I[v + s] * F[s]", "Z[q] = T[q + s] * G[s]"], {}, {"Q": 2, "S": 2, "V": 3, "W": 4})
+    # a rank-0 intermediate read by later Einsums
+    add("scalar-intermediate", {"A": ["K"], "B": ["K"], "C": ["M"], "T": [], "Z": ["M"], "S": []},
+        ["T[] = A[k] * B[k]", "Z[m] = T[] * C[m]", "S[] = T[]"], {}, {"K": 3, "M": 2})
+    add("scalar-intermediate/lo", {"A": ["K"], "B": ["K"], "C": ["M"], "T": [], "Z": ["M"]},
+        ["T[] = A[k] * B[k]", "Z[m] = C[m] * T[]"], {"loop-order": {"Z": ["M"]}}, {"K": 3, "M": 2})
+    # a producer that flattens three ranks of its own output, consumed afterwards
+    add("flat3-producer", {"A": ["M", "N", "O"], "B": ["M", "N", "O"], "T": ["M", "N", "O"], "Z": ["M"]},
+        ["T[m, n, o] = A[m, n, o] * B[m, n, o]", "Z[m] = T[m, n, o]"],
+        {"partitioning": {"T": {"(M, N, O)": ["flatten()"], "MNO": ["uniform_occupancy(A.3)"]}}, "loop-order": {"T": ["MNO1", "MNO0"]}},
+        {"M": 2, "N": 2, "O": 2})
+    add("flat2-producer", {"A": ["M", "N"], "B": ["M", "N"], "T": ["M", "N"], "Z": ["M"]},
+        ["T[m, n] = A[m, n] * B[m, n]", "Z[m] = T[m, n]"],
+        {"partitioning": {"T": {"(M, N)": ["flatten()"]}}, "loop-order": {"T": ["MN"]}}, {"M": 2, "N": 3})
+    add("split-own-rank-producer", {"A": ["K", "M"], "B": ["K", "N"], "C": ["M", "N"], "T": ["M", "N"], "Z": ["M", "N"]},
+        ["T[m, n] = A[k, m] * B[k, n]", "Z[m, n] = T[m, n] * C[m, n]"],
+        {"partitioning": {"T": {"M": ["uniform_shape(2)"]}}, "loop-order": {"T": ["M1", "K", "N", "M0"]}}, {"K": 2, "M": 3, "N": 2})
     # a partitioned rank named I (rank names ending in the temporary-marker letter)
     d8 = {"A": ["I", "K"], "B": ["K", "J"], "Z": ["I", "J"], "Y": ["I"]}
     add("ijk/part", d8, ["Z[i, j] = A[i, k] * B[k, j]", "Y[i] = Z[i, j]"],
@@ -813,7 +890,7 @@ def mini_metrics_yaml(loop, isect, style, ro, lead="A", levels=None, names=("A",
     return y
 
 
-def cascade_metrics_spec(muls, name, outs=("T", "U", "Z"), seq=None):
+def cascade_metrics_spec(muls, name, outs=("T", "U", "Z"), seq=None, host=None, config_last=False):
     """three chained element-wise Einsums on one accelerator; muls = which multiplier each Einsum is bound to;
     outs = names of the three outputs (program order); seq = Einsums (by position) that also bind the sequencer"""
     ranks = ["M", "N"]
@@ -833,10 +910,21 @@ def cascade_metrics_spec(muls, name, outs=("T", "U", "Z"), seq=None):
         y += "      - name: Mul%d\n        class: compute\n        attributes:\n          type: mul\n" % i
     if seq is not None:
         y += "      - name: Seq\n        class: Sequencer\n        attributes:\n          num_ranks: 2\n"
+    if host is not None:
+        # a second configuration on which an Einsum runs with nothing bound
+        y += ("  Host:\n  - name: System\n    attributes:\n      clock_frequency: 103\n    local:\n"
+              "    - name: HostMem\n      class: DRAM\n      attributes:\n        bandwidth: 223\n")
     y += "bindings:\n"
     ins = {o0: ["A", "B"], o1: [o0, "C"], o2: [o1, "D"]}
     for pos, (e, mu) in enumerate(zip((o0, o1, o2), muls)):
-        y += "  %s:\n  - config: Acc\n    prefix: tmp/%s\n  - component: Mem\n    bindings:\n" % (e, e)
+        if host is not None and pos in host:
+            y += "  %s:\n  - config: Host\n    prefix: tmp/%s\n" % (e, e)
+            continue
+        cfg = "  - config: Acc\n    prefix: tmp/%s\n" % e
+        y += "  %s:\n" % e
+        if not config_last:
+            y += cfg
+        y += "  - component: Mem\n    bindings:\n"
         for t in ins[e] + [e]:
             for r in ranks:
                 for ty in ("coord", "payload"):
@@ -844,6 +932,8 @@ def cascade_metrics_spec(muls, name, outs=("T", "U", "Z"), seq=None):
         y += "  - component: Mul%d\n    bindings:\n    - op: mul\n" % mu
         if seq is not None and pos in seq:
             y += "  - component: Seq\n    bindings:\n    - rank: M\n    - rank: N\n"
+        if config_last:
+            y += cfg
     from . import spec as S
     secs = S.split_sections(y)
     decl = {t: ["M", "N"] for t in tensors}
@@ -993,6 +1083,13 @@ def f_metrics(tier="quick", seed=0):
     specs.append(cascade_metrics_spec((0, 1, 2), "metrics/cascade3/seq=01", seq=(0, 1)))
     specs.append(cascade_metrics_spec((0, 1, 2), "metrics/cascade3/seq=02", seq=(0, 2)))
     specs.append(cascade_metrics_spec((0, 1, 2), "metrics/cascade3/seq=12/names=ZYX", outs=("Z", "Y", "X"), seq=(1, 2)))
+    # an Einsum on another configuration with nothing bound, between / after two Einsums that could otherwise fuse
+    specs.append(cascade_metrics_spec((0, 1, 1), "metrics/cascade3/host=middle", host=(1,)))
+    specs.append(cascade_metrics_spec((0, 1, 2), "metrics/cascade3/host=last", host=(2,)))
+    specs.append(cascade_metrics_spec((0, 1, 2), "metrics/cascade3/host=first", host=(0,)))
+    # the config entry listed after the component entries
+    specs.append(cascade_metrics_spec((0, 1, 0), "metrics/cascade3/config-last/mul=010", config_last=True))
+    specs.append(cascade_metrics_spec((0, 0, 0), "metrics/cascade3/config-last/mul=000", config_last=True))
     # a single-instance level next to a multi-instance level, in both orders
     for isect in ("two-finger", "leader-follower"):
         for order in ("before", "after"):
@@ -1073,7 +1170,7 @@ def f_metrics(tier="quick", seed=0):
     specs.append(merger_spec("flat", {"A": ["N", "K", "M"], "Z": ["N"]}, ["Z[n] = A[n, k, m]"], {"(M, K)": ["flatten()"]}, ["N", "MK"],
                              ["N", "MK"], ["MK", "N"], ["N", "MK"], {"K": 2, "M": 2, "N": 2}))
     # three bound memory levels (two distinct source memories at levels with different instance counts), both binding orders
-    def three_level(order):
+    def three_level(order, styles=("lazy", "lazy")):
         def fmt(t, ranks):
             yy = "  %s:\n    default:\n      rank-order: [%s]\n" % (t, ", ".join(ranks))
             for r in ranks:
@@ -1093,20 +1190,27 @@ def f_metrics(tier="quick", seed=0):
             for ty in ("coord", "payload"):
                 out += "    - tensor: A\n      rank: K\n      type: %s\n      format: default\n%s" % (ty, extra)
             return out
-        ev = "      evict-on: root\n      style: lazy\n"
-        bufs = [b("L2", ev), b("L1", ev)]
+        def evs(st):
+            return "      evict-on: %s\n      style: %s\n" % ("root" if st == "lazy" else "M", st)
+        bufs = ["  - component: L2\n    bindings:\n    - tensor: A\n      rank: K\n      type: coord\n      format: default\n" + evs("eager")
+                if styles[0] == "eager" else b("L2", evs("lazy")),
+                "  - component: L1\n    bindings:\n    - tensor: A\n      rank: K\n      type: coord\n      format: default\n" + evs("eager")
+                if styles[1] == "eager" else b("L1", evs("lazy"))]
         if order == "L1-first":
             bufs.reverse()
         y += "bindings:\n  Z:\n  - config: Acc\n    prefix: tmp/Z\n" + b("Mem") + "".join(bufs)
         y += "  - component: Mul\n    bindings:\n    - op: mul\n"
         secs = S.split_sections(y)
         lo = ["M", "K", "N"]
-        return {"name": "metrics/three-level/" + order, "decl": decl, "exprs": exprs,
+        return {"name": "metrics/three-level/%s/%s-%s" % (order, styles[0], styles[1]), "decl": decl, "exprs": exprs,
                 "mapping": {"loop-order": {"Z": lo}, "spacetime": {"Z": {"space": [], "time": lo}}},
                 "extents": {"K": 3, "M": 2, "N": 2}, "sizes": {}, "arch": secs["architecture"], "bindings": secs["bindings"],
                 "format": secs["format"], "tags": {"family": "metrics", "template": "three-level", "leader_first": True}}
     specs.append(three_level("L2-first"))
     specs.append(three_level("L1-first"))
+    specs.append(three_level("L2-first", ("eager", "lazy")))
+    specs.append(three_level("L2-first", ("lazy", "eager")))
+    specs.append(three_level("L1-first", ("eager", "eager")))
     # partitioned variant (explicit shapes with interleaved levels)
     for lo in (["M1", "N", "K", "M0"], ["N", "M1", "M0", "K"], ["K", "M1", "N", "M0"]):
         for isect in (None, "two-finger", "leader-follower"):
